@@ -61,7 +61,7 @@ def cases(draw, tier="quick"):
             "after": draw(st.lists(st.sampled_from(["step", "step", "reset"]), min_size=1, max_size=4)),
             "hedge": draw(st.booleans()), "delay": 0, "as_contracts": draw(st.sampled_from([False, False, True])),
             # the observation is made of the library's own features (held weights, prices) instead of the recorder
-            "library_state": draw(st.sampled_from([False, False, True]))}
+            "library_state": draw(st.sampled_from([False, False, True])), "library_total": draw(st.booleans())}
 
 
 def ruin_price(c):
@@ -114,7 +114,7 @@ def to_env_case(c):
            "markup": 0.0, "deposit": 1024.0, "space": space}
     if c.get("library_state") and not c.get("as_contracts"):
         # (weights space only: the weight feature declares a range of weights)
-        out["state"] = ["library", 4 * space[1], 4 * space[2], False]     # (transformers left unfitted: no backtest at construction)
+        out["state"] = ["library", 4 * space[1], 4 * space[2], False, bool(c.get("library_total"))]     # (transformers left unfitted: no backtest at construction)
     return out
 
 
